@@ -366,10 +366,10 @@ class PyRng:
 TREAP_TIERS = {
     "C03": {"quick": 1_000_000, "thorough": 20_000_000},
     # (controlled-priority runs watched for heap order, real-priority process runs, of which at n = 10^6)
-    "C16": {"quick": (200_000, 168, 7), "thorough": (4_000_000, 1260, 42)},
+    "C16": {"quick": (200_000, 192, 8), "thorough": (4_000_000, 1440, 48)},
 }
 
-N_HISTORIES = 14
+N_HISTORIES = 16
 
 
 def treap_ctl(seed, runs, tag):
@@ -490,6 +490,18 @@ def real_matrix(seed, count, big):
     for k in range(2, top + 1):
         for j in range(1 if count < 500 else 2):
             cfgs.append({"history": [0, 1, 2, 3, 5, 7, 9, 10, 12][(k + 4 * j) % 9], "n": 30_000 if count < 500 else 100_000, "mode": 1, "stride": k, "seed": rng.next() % (1 << 48)})
+    # power-of-two strides: an LCG sub-sampled at stride 2^k keeps its low k+2 bits (nearly)
+    # constant, so a generator whose priorities come from low bits shows it exactly here - the
+    # usage is k treaps / buckets filled round-robin with a power-of-two count
+    for k in range(11, 17 if count < 500 else 21):
+        for j in range(1 if count < 500 else 2):
+            cfgs.append({"history": [0, 1, 5, 7][(k + j) % 4], "n": 3000 if k <= 16 else 1500, "mode": 1, "stride": 1 << k, "seed": rng.next() % (1 << 48)})
+    if count >= 500:
+        # thorough only (several seconds each): large power-of-two strides with enough own nodes
+        # for a short period of the sub-sampled low bits to repeat many times
+        for k in (14, 15, 16):
+            for h in (0, 7):
+                cfgs.append({"history": h, "n": 40_000, "mode": 1, "stride": 1 << k, "seed": rng.next() % (1 << 48)})
     for b in range(big):
         cfgs.append({"history": b % N_HISTORIES, "n": 1_000_000, "mode": [0, 1, 2][b % 3], "stride": rng.pick([2, 3, 8, 64]), "seed": rng.next() % (1 << 48)})
     return cfgs
@@ -606,7 +618,7 @@ def check_c16(tier, seed):
         "exhaustive": False,
         "rule": (
             "Two layers. (1) real-priority process runs: one (history, n, foreign-draw interleaving, stride, seed) per process, priorities drawn by the library's own generator; "
-            "the simulator decides the history (14 adversarial orders) and how many foreign nodes are created between two own node creations on the shared generator; height and heap order are "
+            "the simulator decides the history (16 adversarial orders, two of which build or edit pieces on other threads and hand them over) and how many foreign nodes are created between two own node creations on the shared generator; height and heap order are "
             "measured by an iterative walk at every doubling of n and at the end against 5*log2(n+1)+20. (2) controlled-priority histories (same engine as C03) watched for heap order "
             "(direction-agnostic) after every step under ties/spines. distinct_nontrivial = distinct final-tree digests of layer 1 + distinct (shape, pending-set) states of layer 2."
         ),
@@ -627,7 +639,7 @@ def check_c16(tier, seed):
         "build_s": round(build_s, 2),
     }
     assumptions = [
-        "the height clause is a statistical statement about the library's concrete generator, checked on sampled (history, interleaving) pairs; every stride of foreign draws from 2 to 48 (thorough: 160) is covered systematically, larger ones up to 1024 by sampling",
+        "the height clause is a statistical statement about the library's concrete generator, checked on sampled (history, interleaving) pairs; every stride of foreign draws from 2 to 48 (thorough: 160) is covered systematically, larger ones up to 1024 by sampling, and the powers of two 2^11..2^16 (thorough: 2^20)",
         "heap order is accepted in either direction as long as it is consistent over the whole tree",
         "sampling, not proof",
     ]
@@ -731,6 +743,35 @@ class SeqRef:
             p, _, _, _ = self.native(cfg, "serial", ("--perm", ",".join(map(str, perm))))
             if p == prio:
                 return True, "serial order %s" % (list(perm),)
+        # designs in which a thread's stream depends on its POSITION in the order of first use
+        # (per-thread generators seeded from a counter): T rotations of the identity order put
+        # every thread at every position once; find an assignment thread -> position that explains
+        # every observed stream, then confirm it with one native serial run in exactly that order
+        if T > 1:
+            at = {}  # (position, thread) -> stream
+            for r in range(T):
+                perm = [(j + r) % T for j in range(T)]
+                p, _, _, _ = self.native(cfg, "serial", ("--perm", ",".join(map(str, perm))))
+                for j, t in enumerate(perm):
+                    at[(j, t)] = p.get(t)
+            options = {t: [j for j in range(T) if at.get((j, t)) == prio.get(t)] for t in range(T)}
+
+            def assign(t, used):
+                if t == T:
+                    return []
+                for j in options[t]:
+                    if j not in used:
+                        rest = assign(t + 1, used | {j})
+                        if rest is not None:
+                            return [j] + rest
+                return None
+
+            pos = assign(0, frozenset())
+            if pos is not None:
+                order = sorted(range(T), key=lambda t: pos[t])
+                p, _, _, _ = self.native(cfg, "serial", ("--perm", ",".join(map(str, order))))
+                if p == prio:
+                    return True, "serial order %s" % (order,)
         total = sum(len(v) for v in prio.values())
         _, _, _, single = self.native(cfg, "single", ("--draws", str(total + 8)))
         pos = {}
